@@ -5,7 +5,7 @@
 // scripted per-datagram fault schedule (drop / dup / delay / flip / trunc, both directions, handshake
 // included). One op line = one complete scenario; its result is the canonical observation.
 //
-//	run cl=<plain|chrome> v=<1|2> seed=<n> sc=<nc>,<ns>,<nd>,<maxKiB> faults=<dir>:<idx>:<kind>:<arg>,…|- [x=<cwKiB>,<one>,<boStart>,<boDur>,<dgi>] [y=<idleMs>,<ka>,<quietMs>,<who>,<outDir>,<outMs>]
+//	run cl=<plain|chrome|firefox> v=<1|2> seed=<n> sc=<nc>,<ns>,<nd>,<maxKiB> faults=<dir>:<idx>:<kind>:<arg>,…|- [x=<cwKiB>,<one>,<boStart>,<boDur>,<dgi>] [y=<idleMs>,<ka>,<quietMs>,<who>,<outDir>,<outMs>] [b=<kinds>,<KiB>,<lagMs>] [h=<mode>]
 //	 => dial=<err> c2s=<id>:<len>/<want>:<sha8>/<wantsha8>:<pfx>:<err>;… s2c=… dg=<got>/<sent>:<dups>:<bad> t=<ms> [p2=<obs> conn=<client ctx err>,<server ctx err>]
 //
 // y= (round 4) is a second phase on the same connection: both endpoints negotiate the idle timeout idleMs (ka=1: with
@@ -15,11 +15,35 @@
 // 2 both). The observation adds what the phase-2 reader got and whether both connections are still alive well after
 // the outage.
 //
+// b= (round 5) replaces the sc= streams by BULK transfers that exceed the stream-level receive windows, one stream per
+// selected kind (bit 1: bidirectional opened by the client, 2: bidirectional opened by the server, 4: unidirectional
+// client->server, 8: unidirectional server->client); every bidirectional stream carries KiB (+ up to 1499 bytes) in
+// BOTH directions, and every reader starts reading only lagMs after it got the stream (a sender that is ahead of the
+// application by whatever the advertised window allows). Spec-driven clients (Chrome: all stream windows equal;
+// Firefox: 12 MiB for streams it opens, 1 MiB for the server's and for unidirectional ones) advertise their windows
+// in the QUICSpec, so the window each stream kind really gets has to be the advertised one: a smaller one is a
+// spurious FLOW_CONTROL_ERROR, a larger one a transfer that stalls at the advertised limit.
+//
+// h= (round 5) varies the HANDSHAKE under the same transfers — connection state that is set up twice or thrown away:
+// 1 the server answers the first Initial with a Retry; 2 the server only accepts P-384, so the ClientHello is answered
+// with a HelloRetryRequest; 3..6 (plain client) the connection is a RESUMPTION with 0-RTT: a first connection fetches a
+// session ticket, the second is a DialEarly whose client->server streams are opened and written BEFORE the handshake
+// completes — 3: accepted; 4: the server meanwhile lowered its stream limit and must reject 0-RTT; 5: accepted, but
+// behind a Retry (the early data is sent again with the token); 6: rejected by TLS because of a HelloRetryRequest
+// (mode 6 is accepted by the driver but NOT generated: with the uTLS version /repo builds against, the resumed
+// ClientHello sent after a HelloRetryRequest carries a PSK binder computed before the early_data extension was
+// removed, the server answers nothing and the handshake times out — fixes/C01-0rtt-hello-retry-psk-binder.ops).
+// After a rejection everything sent early is void: the client calls NextConnection and transfers the streams again
+// WITH DIFFERENT CONTENTS, so that any frame of the first attempt that survives the reset (retransmission queue,
+// framer, stream offsets, flow-control credit) shows up as wrong bytes, a wrong length or a stalled transfer. The
+// result adds zr=<0-RTT used>,<rejected>.
+//
 // Everything about the scenario (stream sizes, contents, Write/Read chunkings) is derived from `seed`.
 // Nothing here is a proof: it exercises the liveness sentence of the property and feeds the monitors.
 package e2estream
 
 import (
+	"bufio"
 	"bytes"
 	"context"
 	"crypto/sha256"
@@ -28,10 +52,13 @@ import (
 	"errors"
 	"fmt"
 	"io"
+	"net"
 	"os"
+	"os/exec"
 	"sort"
 	"strings"
 	"sync"
+	"sync/atomic"
 	"testing"
 	"testing/synctest"
 	"time"
@@ -39,6 +66,7 @@ import (
 	quic "github.com/refraction-networking/uquic"
 	"github.com/refraction-networking/uquic/internal/verifharness/e2e"
 	"github.com/refraction-networking/uquic/internal/verifharness/vh"
+	tls "github.com/refraction-networking/utls"
 )
 
 const (
@@ -70,6 +98,12 @@ type scenario struct {
 	who     int // phase-2 writer: 0 client, 1 server
 	outDir  int // 0 no outage, 1 the direction towards the writer is dead, 2 both directions are dead
 	outMs   int // ... for outMs ms from the moment of the phase-2 write
+	// round 5 (bulk transfers beyond the stream windows on every stream kind); bKinds = 0: off
+	bKinds int // bit 1 client-bidi, 2 server-bidi, 4 client-uni, 8 server-uni
+	bKiB   int
+	bLagMs int
+	// round 5 (handshake variants): 0 plain handshake, 1 Retry, 2 HelloRetryRequest, 3..6 0-RTT resumption (see above)
+	hs int
 }
 
 func (s scenario) String() string {
@@ -88,13 +122,19 @@ func (s scenario) String() string {
 	if s.hasY {
 		out += fmt.Sprintf(" y=%d,%d,%d,%d,%d,%d", s.idleMs, s.ka, s.quietMs, s.who, s.outDir, s.outMs)
 	}
+	if s.bKinds != 0 {
+		out += fmt.Sprintf(" b=%d,%d,%d", s.bKinds, s.bKiB, s.bLagMs)
+	}
+	if s.hs != 0 {
+		out += fmt.Sprintf(" h=%d", s.hs)
+	}
 	return out
 }
 
 func parseScenario(op string) (scenario, bool) {
 	var s scenario
 	f := strings.Fields(op)
-	if len(f) < 6 || len(f) > 8 || f[0] != "run" {
+	if len(f) < 6 || len(f) > 10 || f[0] != "run" {
 		return s, false
 	}
 	kv := map[string]string{}
@@ -133,6 +173,20 @@ func parseScenario(op string) (scenario, bool) {
 		s.hasY = true
 		if s.idleMs < 1000 || s.idleMs > 20000 || s.ka < 0 || s.ka > 1 || s.quietMs < 0 || s.quietMs > 60000 ||
 			s.who < 0 || s.who > 1 || s.outDir < 0 || s.outDir > 2 || s.outMs < 0 || s.outMs > 20000 {
+			return s, false
+		}
+	}
+	if b, ok := kv["b"]; ok {
+		if n, _ := fmt.Sscanf(b, "%d,%d,%d", &s.bKinds, &s.bKiB, &s.bLagMs); n != 3 {
+			return s, false
+		}
+		if s.bKinds < 1 || s.bKinds > 15 || s.bKiB < 1 || s.bKiB > 16384 || s.bLagMs < 0 || s.bLagMs > 5000 || s.hasY || s.nc+s.ns+s.nd != 0 {
+			return s, false
+		}
+	}
+	if h, ok := kv["h"]; ok {
+		s.hs = int(vh.Atoi64(h))
+		if s.hs < 1 || s.hs > 6 || (s.hs >= 3 && (s.client != "plain" || s.hasY || s.bKinds != 0 || s.boDur != 0 || s.dgi != 0)) {
 			return s, false
 		}
 	}
@@ -298,16 +352,38 @@ func fmtObs(o []streamObs) string {
 	return strings.Join(parts, ";")
 }
 
+// specFor: the QUICSpec of a spec-driven client kind (nil, true for the plain client).
+func specFor(client string) (*quic.QUICSpec, bool) {
+	var id quic.QUICID
+	switch client {
+	case "plain":
+		return nil, true
+	case "chrome":
+		id = quic.QUICChrome_115_IPv4
+	case "firefox":
+		id = quic.QUICFirefox_116
+	default:
+		return nil, false
+	}
+	sp, err := quic.QUICID2Spec(id)
+	if err != nil {
+		return nil, false
+	}
+	return &sp, true
+}
+
 func runScenario(t *testing.T, sc scenario) (res string) {
+	if sc.hs >= 3 {
+		return runZeroRTT(t, sc)
+	}
+	if sc.bKinds != 0 {
+		return runBulk(t, sc)
+	}
 	synctest.Test(t, func(t *testing.T) {
-		var spec *quic.QUICSpec
-		if sc.client == "chrome" {
-			sp, err := quic.QUICID2Spec(quic.QUICChrome_115_IPv4)
-			if err != nil {
-				res = "setup-error spec"
-				return
-			}
-			spec = &sp
+		spec, ok := specFor(sc.client)
+		if !ok {
+			res = "setup-error spec"
+			return
 		}
 		ver := quic.Version1
 		if sc.version == 2 {
@@ -326,7 +402,7 @@ func runScenario(t *testing.T, sc scenario) (res string) {
 				conf.KeepAlivePeriod = conf.MaxIdleTimeout / 2
 			}
 		}
-		env, err := e2e.Start(e2e.Setup{Spec: spec, Faults: sc.faults, ServerConf: conf, ClientConf: conf})
+		env, err := e2e.Start(handshakeVariant(sc, e2e.Setup{Spec: spec, Faults: sc.faults, ServerConf: conf, ClientConf: conf}))
 		if err != nil {
 			res = "setup-error start"
 			return
@@ -532,6 +608,443 @@ func runScenario(t *testing.T, sc scenario) (res string) {
 	return res
 }
 
+// handshakeVariant applies h= to the endpoints: a Retry for every new connection (modes 1, 5), a server that only
+// accepts P-384 key shares and therefore answers the ClientHello with a HelloRetryRequest (modes 2, 6).
+func handshakeVariant(sc scenario, s e2e.Setup) e2e.Setup {
+	if sc.hs == 1 || sc.hs == 5 {
+		s.ServerTransport = func(tr *quic.Transport) { tr.VerifySourceAddress = func(net.Addr) bool { return true } }
+	}
+	if sc.hs == 2 || sc.hs == 6 {
+		c := e2e.ServerTLSConfig()
+		c.CurvePreferences = []tls.CurveID{tls.CurveP384}
+		s.ServerTLS = c
+	}
+	return s
+}
+
+// runZeroRTT: the h=3..6 scenarios (see the package comment). Plain client only.
+func runZeroRTT(t *testing.T, sc scenario) (res string) {
+	synctest.Test(t, func(t *testing.T) {
+		ver := quic.Version1
+		if sc.version == 2 {
+			ver = quic.Version2
+		}
+		var lowered atomic.Bool
+		base := &quic.Config{EnableDatagrams: true, Versions: []quic.Version{ver}, Allow0RTT: true}
+		if sc.cwKiB > 0 { // a small connection-level window: the early data uses it up, and after a rejection it has to be whole again
+			base.InitialConnectionReceiveWindow = uint64(sc.cwKiB) << 10
+			base.MaxConnectionReceiveWindow = uint64(sc.cwKiB) << 10
+			base.InitialStreamReceiveWindow = 2 << 20
+			base.MaxStreamReceiveWindow = 2 << 20
+		}
+		sconf := base.Clone()
+		if sc.hs == 4 {
+			sconf.GetConfigForClient = func(*quic.ClientInfo) (*quic.Config, error) {
+				c := base.Clone()
+				if lowered.Load() {
+					c.MaxIncomingStreams = 40 // fewer than the client remembers: the server has to refuse 0-RTT
+					c.MaxIncomingUniStreams = 40
+				}
+				return c, nil
+			}
+		}
+		ctls := e2e.ClientTLSConfig()
+		ctls.ClientSessionCache = tls.NewLRUClientSessionCache(4)
+		setup := handshakeVariant(sc, e2e.Setup{Faults: sc.faults, ServerConf: sconf, ClientConf: base, ClientTLS: ctls})
+		if setup.ServerTLS == nil {
+			setup.ServerTLS = e2e.ServerTLSConfig()
+		}
+		env, err := e2e.Start(setup)
+		if err != nil {
+			res = "setup-error start"
+			return
+		}
+		// connection 1: fetch a session ticket
+		pctx, pcancel := context.WithTimeout(context.Background(), 20*time.Second)
+		pre := make(chan *quic.Conn, 1)
+		go func() {
+			c, _ := env.Listener.Accept(pctx)
+			pre <- c
+		}()
+		c0, derr := env.Dial(pctx)
+		if derr == nil {
+			time.Sleep(300 * time.Millisecond) // NewSessionTicket
+			c0.CloseWithError(0, "")
+		}
+		if s0 := <-pre; s0 != nil {
+			s0.CloseWithError(0, "")
+		}
+		pcancel()
+		time.Sleep(200 * time.Millisecond)
+		if derr != nil {
+			env.Close()
+			synctest.Wait()
+			res = fmt.Sprintf("dial=%s c2s=- s2c=- dg=0/%d:0:0 werr=- t=0 zr=0,0", errClass(derr), sc.nd)
+			return
+		}
+		if sc.hs == 4 {
+			lowered.Store(true)
+		}
+		// connection 2: DialEarly; the client->server streams are written right away
+		start := time.Now()
+		deadline := start.Add(runDeadline)
+		ctx, cancel := context.WithDeadline(context.Background(), deadline)
+		var (
+			mu    sync.Mutex
+			c2sB  = map[int64][]byte{} // what the server read, per stream id
+			c2sE  = map[int64]string{}
+			s2c   []streamObs
+			werrs []string
+			wg    sync.WaitGroup
+		)
+		note := func(err error, what string) {
+			if err != nil {
+				mu.Lock()
+				werrs = append(werrs, what+"="+errClass(err))
+				mu.Unlock()
+			}
+		}
+		serverConn := make(chan *quic.Conn, 1)
+		wg.Add(1)
+		go func() {
+			defer wg.Done()
+			c, err := env.Listener.Accept(ctx)
+			if err != nil {
+				note(err, "accept")
+				serverConn <- nil
+				return
+			}
+			serverConn <- c
+			for k := 0; k < sc.nc; k++ {
+				s, err := c.AcceptStream(ctx)
+				if err != nil {
+					note(err, "acceptstream")
+					break
+				}
+				wg.Add(1)
+				go func() {
+					defer wg.Done()
+					s.Close()
+					s.SetReadDeadline(deadline)
+					b, err := io.ReadAll(io.LimitReader(s, 4<<20))
+					mu.Lock()
+					c2sB[int64(s.StreamID())] = b
+					c2sE[int64(s.StreamID())] = errClass(err)
+					if err == nil {
+						c2sE[int64(s.StreamID())] = "EOF"
+					}
+					mu.Unlock()
+				}()
+			}
+			for k := 0; k < sc.ns; k++ {
+				s, err := c.OpenUniStreamSync(ctx)
+				if err != nil {
+					note(err, "s-open")
+					break
+				}
+				wg.Add(1)
+				go func() {
+					defer wg.Done()
+					data, r := streamPlan(sc.seed, 1, k, sc.maxKiB)
+					note(writeAll(s, data, r, deadline, false), "s-write")
+				}()
+			}
+		}()
+		used, rejected := false, false
+		c, derr := env.ClientTr.DialEarly(ctx, e2e.ServerAddr, ctls.Clone(), env.ClientCfg)
+		if derr == nil {
+			// attempt 1 (possibly 0-RTT): contents of plan 4+k. Errors are not reported: after a rejection they are expected.
+			var early sync.WaitGroup
+			for k := 0; k < sc.nc; k++ {
+				s, err := c.OpenStream()
+				if err != nil {
+					break
+				}
+				early.Add(2)
+				go func() {
+					defer early.Done()
+					data, r := streamPlan(sc.seed, 4, k, sc.maxKiB)
+					writeAll(s, data, r, deadline, sc.one == 1)
+				}()
+				go func() {
+					defer early.Done()
+					s.SetReadDeadline(deadline)
+					io.Copy(io.Discard, s)
+				}()
+			}
+			select {
+			case <-c.HandshakeComplete():
+			case <-c.Context().Done():
+			case <-ctx.Done():
+			}
+			used = c.ConnectionState().Used0RTT
+			// after a rejection the streams map answers every call with Err0RTTRejected until NextConnection
+			if _, perr := c.OpenUniStream(); errors.Is(perr, quic.Err0RTTRejected) {
+				rejected = true
+				early.Wait() // every call on a stream of the first attempt has failed by now
+				if _, err := c.NextConnection(ctx); err != nil {
+					note(err, "nextconnection")
+				} else if c.Context().Err() != nil { // NextConnection also returns when the connection died
+					note(context.Cause(c.Context()), "nextconnection")
+				}
+				for k := 0; k < sc.nc; k++ {
+					s, err := c.OpenStreamSync(ctx)
+					if err != nil {
+						note(err, "c-open")
+						break
+					}
+					wg.Add(2)
+					go func() {
+						defer wg.Done()
+						data, r := streamPlan(sc.seed, 0, k, sc.maxKiB)
+						note(writeAll(s, data, r, deadline, sc.one == 1), "c-write")
+					}()
+					go func() {
+						defer wg.Done()
+						s.SetReadDeadline(deadline)
+						io.Copy(io.Discard, s)
+					}()
+				}
+			} else {
+				early.Wait()
+			}
+			for k := 0; k < sc.ns; k++ {
+				s, err := c.AcceptUniStream(ctx)
+				if err != nil {
+					note(err, "c-accept")
+					break
+				}
+				wg.Add(1)
+				go func() {
+					defer wg.Done()
+					id := int64(s.StreamID())
+					want, r := streamPlan(sc.seed, 1, int(id/4), sc.maxKiB)
+					o := readAll(s, id, want, vh.NewRand(r.U64()^1), deadline)
+					mu.Lock()
+					s2c = append(s2c, o)
+					mu.Unlock()
+				}()
+			}
+		}
+		wg.Wait()
+		elapsed := time.Since(start)
+		sconn := <-serverConn
+		time.Sleep(300 * time.Millisecond)
+		cancel()
+		if c != nil {
+			c.CloseWithError(0, "")
+		}
+		if sconn != nil {
+			sconn.CloseWithError(0, "")
+		}
+		env.Close()
+		synctest.Wait()
+		mu.Lock()
+		defer mu.Unlock()
+		// what the server was to read: the first attempt's contents, or — after a rejection — the second attempt's
+		var c2s []streamObs
+		for id, got := range c2sB {
+			d := 4
+			if rejected {
+				d = 0
+			}
+			want, _ := streamPlan(sc.seed, d, int(id/4), sc.maxKiB)
+			c2s = append(c2s, streamObs{id: id, got: len(got), want: len(want), sha: sha8(got), wsha: sha8(want), pfx: bytes.HasPrefix(want, got), err: c2sE[id]})
+		}
+		sort.Strings(werrs)
+		we := "-"
+		if len(werrs) > 0 {
+			we = strings.Join(werrs, ",")
+		}
+		res = fmt.Sprintf("dial=%s c2s=%s s2c=%s dg=0/0:0:0 werr=%s t=%d zr=%s,%s", errClass(derr), fmtObs(c2s), fmtObs(s2c), we, elapsed.Milliseconds(), b01(used), b01(rejected))
+	})
+	return res
+}
+
+func b01(b bool) string {
+	if b {
+		return "1"
+	}
+	return "0"
+}
+
+// bulkData: what stream kind `kind` carries in direction `dir` (0 c2s, 1 s2c): KiB..KiB+1499 bytes.
+func bulkData(seed uint64, kind, dir, KiB int) ([]byte, *vh.Rand) {
+	r := vh.NewRand(seed ^ uint64(kind+1)<<36 ^ uint64(dir+1)<<44 ^ 0x6a09e667f3bcc909)
+	n := KiB*1024 + int(r.Range(0, 1499))
+	data := make([]byte, n)
+	x := r.U64()
+	for i := 0; i+8 <= n; i += 8 {
+		x = x*6364136223846793005 + 1442695040888963407
+		binary.LittleEndian.PutUint64(data[i:], x)
+	}
+	for i := n &^ 7; i < n; i++ {
+		data[i] = byte(x >> (8 * uint(i&7)))
+	}
+	return data, r
+}
+
+// runBulk: the b= scenarios (see the package comment).
+func runBulk(t *testing.T, sc scenario) (res string) {
+	synctest.Test(t, func(t *testing.T) {
+		spec, ok := specFor(sc.client)
+		if !ok {
+			res = "setup-error spec"
+			return
+		}
+		ver := quic.Version1
+		if sc.version == 2 {
+			ver = quic.Version2
+		}
+		conf := &quic.Config{Versions: []quic.Version{ver}}
+		env, err := e2e.Start(handshakeVariant(sc, e2e.Setup{Spec: spec, Faults: sc.faults, ServerConf: conf, ClientConf: conf}))
+		if err != nil {
+			res = "setup-error start"
+			return
+		}
+		start := time.Now()
+		deadline := start.Add(runDeadline)
+		ctx, cancel := context.WithDeadline(context.Background(), deadline)
+		var (
+			mu       sync.Mutex
+			c2s, s2c []streamObs
+			werrs    []string
+			wg       sync.WaitGroup
+		)
+		note := func(err error, what string) {
+			if err != nil {
+				mu.Lock()
+				werrs = append(werrs, what+"="+errClass(err))
+				mu.Unlock()
+			}
+		}
+		lag := time.Duration(sc.bLagMs) * time.Millisecond
+		// one end of one stream: write what this side sends on it (w != nil), read what the other side sends (rd != nil)
+		serve := func(kind int, fromClient bool, w writer, rd reader, id int64) {
+			sendDir, recvDir := 1, 0 // this side is the server
+			if fromClient {
+				sendDir, recvDir = 0, 1
+			}
+			if w != nil {
+				wg.Add(1)
+				go func() {
+					defer wg.Done()
+					data, r := bulkData(sc.seed, kind, sendDir, sc.bKiB)
+					who := "s-write"
+					if fromClient {
+						who = "c-write"
+					}
+					note(writeAll(w, data, r, deadline, false), who)
+				}()
+			}
+			if rd != nil {
+				wg.Add(1)
+				go func() {
+					defer wg.Done()
+					want, r := bulkData(sc.seed, kind, recvDir, sc.bKiB)
+					time.Sleep(lag)
+					o := readAll(rd, id, want, vh.NewRand(r.U64()^1), deadline)
+					mu.Lock()
+					if recvDir == 0 {
+						c2s = append(c2s, o)
+					} else {
+						s2c = append(s2c, o)
+					}
+					mu.Unlock()
+				}()
+			}
+		}
+		// the kind of an accepted stream follows from its id (RFC 9000 2.1): bit 0 initiator, bit 1 unidirectional
+		endpoint := func(c *quic.Conn, isClient bool) {
+			ownBidi, ownUni, peerBidi, peerUni := 2, 8, 1, 4
+			tag := "s"
+			if isClient {
+				ownBidi, ownUni, peerBidi, peerUni = 1, 4, 2, 8
+				tag = "c"
+			}
+			if sc.bKinds&ownBidi != 0 {
+				s, err := c.OpenStreamSync(ctx)
+				if err != nil {
+					note(err, tag+"-open")
+				} else {
+					serve(ownBidi, isClient, s, s, int64(s.StreamID()))
+				}
+			}
+			if sc.bKinds&ownUni != 0 {
+				s, err := c.OpenUniStreamSync(ctx)
+				if err != nil {
+					note(err, tag+"-open")
+				} else {
+					serve(ownUni, isClient, s, nil, int64(s.StreamID()))
+				}
+			}
+			if sc.bKinds&peerBidi != 0 {
+				wg.Add(1)
+				go func() {
+					defer wg.Done()
+					s, err := c.AcceptStream(ctx)
+					if err != nil {
+						note(err, tag+"-accept")
+						return
+					}
+					serve(peerBidi, isClient, s, s, int64(s.StreamID()))
+				}()
+			}
+			if sc.bKinds&peerUni != 0 {
+				wg.Add(1)
+				go func() {
+					defer wg.Done()
+					s, err := c.AcceptUniStream(ctx)
+					if err != nil {
+						note(err, tag+"-accept")
+						return
+					}
+					serve(peerUni, isClient, nil, s, int64(s.StreamID()))
+				}()
+			}
+		}
+		serverConn := make(chan *quic.Conn, 1)
+		wg.Add(1)
+		go func() {
+			defer wg.Done()
+			c, err := env.Listener.Accept(ctx)
+			if err != nil {
+				note(err, "accept")
+				serverConn <- nil
+				return
+			}
+			serverConn <- c
+			endpoint(c, false)
+		}()
+		c, derr := env.Dial(ctx)
+		if derr == nil {
+			endpoint(c, true)
+		}
+		wg.Wait()
+		elapsed := time.Since(start)
+		sconn := <-serverConn
+		time.Sleep(300 * time.Millisecond)
+		cancel()
+		if c != nil {
+			c.CloseWithError(0, "")
+		}
+		if sconn != nil {
+			sconn.CloseWithError(0, "")
+		}
+		env.Close()
+		synctest.Wait()
+		mu.Lock()
+		defer mu.Unlock()
+		sort.Strings(werrs)
+		we := "-"
+		if len(werrs) > 0 {
+			we = strings.Join(werrs, ",")
+		}
+		res = fmt.Sprintf("dial=%s c2s=%s s2c=%s dg=0/0:0:0 werr=%s t=%d", errClass(derr), fmtObs(c2s), fmtObs(s2c), we, elapsed.Milliseconds())
+	})
+	return res
+}
+
 // runPhase2: silence, then one more unidirectional stream from `who` while the path (towards the writer, or both
 // ways) is dead for outMs; finally, well after the outage, are both connections still alive?
 func runPhase2(sc scenario, cconn, sconn *quic.Conn, setOutage func([2]bool, time.Duration), note func(error, string)) string {
@@ -634,6 +1147,25 @@ func buildEnum(seed uint64) []scenario {
 			}
 		}
 	}
+	// round 5: every single fault under every handshake variant (Retry, HelloRetryRequest with the client kinds in turn;
+	// 0-RTT accepted / rejected / behind a Retry with the plain client). For h>=3 the first connection (the one that
+	// fetches the ticket) uses the first ~8 datagrams of each direction, so both connections are hit.
+	for h := 1; h <= 5; h++ {
+		for n, p := range ps {
+			for _, k := range kinds {
+				cl := "plain"
+				if h <= 2 {
+					cl = []string{"plain", "firefox", "chrome"}[n%3]
+				}
+				sc := mk(cl, 1+n%2, []e2e.Fault{{Dir: e2e.Dir(p.d), Index: p.i + (h/3)*r.Intn(2)*9, Kind: k, Arg: faultArg(k, r)}})
+				sc.hs = h
+				if h >= 3 {
+					sc.nd = 0
+				}
+				out = append(out, sc)
+			}
+		}
+	}
 	// every pair of faults (plain client, QUIC v1)
 	for a := 0; a < len(ps); a++ {
 		for b := a + 1; b < len(ps); b++ {
@@ -694,6 +1226,65 @@ func buildHdrEnum(seed uint64, allBits bool) []scenario {
 	return out
 }
 
+// bulk transfers (round 5, b=): an enumerated cycle, most exposing first. Every run starts at the beginning, so that a
+// quick run always contains: every stream kind in both directions with more bytes than the 1 MiB windows of the Firefox
+// parrot (prompt and late readers), more than Chrome's 6 MiB and more than Firefox's 12 MiB windows, and the plain client.
+var bulkEnum struct {
+	once  sync.Once
+	queue []scenario
+	pos   int
+}
+
+const bulkFirst = 7 // this many entries of the cycle are part of every run
+
+func buildBulkEnum(seed uint64, thorough bool) []scenario {
+	r := vh.NewRand(seed ^ 0x9fb21c651e98df25)
+	var out []scenario
+	add := func(cl string, v, kinds, KiB, lag int, fs ...e2e.Fault) {
+		out = append(out, scenario{client: cl, version: v, seed: r.U64() >> 1, bKinds: kinds, bKiB: KiB, bLagMs: lag, faults: fs})
+	}
+	add("firefox", 1, 15, 1100, 0)
+	add("firefox", 1, 15, 1100, 600)
+	add("chrome", 1, 15, 6400, 1200)
+	add("plain", 1, 15, 1100, 300)
+	add("firefox", 2, 15, 12900, 0)
+	add("firefox", 1, 3, 12900, 2000)
+	add("chrome", 2, 15, 1100, 0)
+	for _, cl := range []string{"firefox", "chrome", "plain"} {
+		for _, kinds := range []int{1, 2, 4, 8, 3, 12, 15} {
+			for _, lag := range []int{0, 150, 900} {
+				KiB := []int{600, 1100, 2300}[r.Intn(3)]
+				var fs []e2e.Fault
+				if r.Chance(50) {
+					k := []string{"drop", "dup", "delay"}[r.Intn(3)]
+					fs = []e2e.Fault{{Dir: e2e.Dir(r.Intn(2)), Index: int(r.Range(4, 400)), Kind: k, Arg: faultArg(k, r) % 400}}
+				}
+				add(cl, 1+r.Intn(2), kinds, KiB, lag, fs...)
+			}
+		}
+	}
+	if thorough {
+		for _, cl := range []string{"firefox", "chrome"} {
+			for _, kinds := range []int{1, 2, 4, 8} {
+				for _, lag := range []int{0, 2500} {
+					add(cl, 1+r.Intn(2), kinds, []int{6400, 12900}[r.Intn(2)], lag)
+				}
+			}
+		}
+	}
+	return out
+}
+
+func nextBulk(thorough bool) string {
+	bulkEnum.once.Do(func() { bulkEnum.queue = buildBulkEnum(vh.EnvU64("VH_SEED", 1), thorough) })
+	s := bulkEnum.queue[bulkEnum.pos%len(bulkEnum.queue)]
+	if bulkEnum.pos >= len(bulkEnum.queue) { // later rounds of the cycle: other contents and chunkings
+		s.seed ^= uint64(bulkEnum.pos) * 0x9e3779b97f4a7c15 >> 1
+	}
+	bulkEnum.pos++
+	return s.String()
+}
+
 func (rn *runner) GenOp(r *vh.Rand, i int) string {
 	thorough := os.Getenv("VH_TIER") == "thorough"
 	if thorough {
@@ -710,7 +1301,12 @@ func (rn *runner) GenOp(r *vh.Rand, i int) string {
 		hdrEnum.pos++
 		return s.String()
 	}
-	switch r.Pick(42, 14, 14, 14, 16) {
+	if i == 2 && bulkEnum.pos < bulkFirst {
+		return nextBulk(thorough)
+	}
+	switch r.Pick(42, 14, 14, 14, 16, 9) {
+	case 5:
+		return nextBulk(thorough)
 	case 4:
 		return genIdle(r).String()
 	case 1: // connection-window limited: several streams, each handed over with one Write + Close
@@ -738,7 +1334,7 @@ func (rn *runner) GenOp(r *vh.Rand, i int) string {
 		return sc.String()
 	}
 	// random schedule: 0..4 faults among the first 30 datagrams of either direction
-	sc := scenario{client: []string{"plain", "chrome"}[r.Pick(65, 35)], version: 1 + r.Pick(60, 40), seed: r.U64() >> 1,
+	sc := scenario{client: []string{"plain", "chrome", "firefox"}[r.Pick(55, 30, 15)], version: 1 + r.Pick(60, 40), seed: r.U64() >> 1,
 		nc: int(r.Range(1, 3)), ns: int(r.Range(1, 3)), nd: int(r.Range(0, 6)), maxKiB: []int{8, 60, 200}[r.Pick(40, 40, 20)]}
 	nf := r.Pick(10, 30, 30, 20, 10)
 	seen := map[[2]int]bool{}
@@ -750,6 +1346,21 @@ func (rn *runner) GenOp(r *vh.Rand, i int) string {
 		seen[[2]int{d, idx}] = true
 		k := kinds[r.Intn(len(kinds))]
 		sc.faults = append(sc.faults, e2e.Fault{Dir: e2e.Dir(d), Index: idx, Kind: k, Arg: faultArg(k, r)})
+	}
+	// handshake variants (round 5): Retry / HelloRetryRequest for every client kind, 0-RTT resumption (accepted,
+	// rejected, behind a Retry) for the plain client
+	switch h := r.Pick(66, 7, 7, 7, 8, 5); {
+	case h >= 3 && sc.client == "plain":
+		sc.hs = h
+		sc.nd = 0
+		if sc.nc == 0 {
+			sc.nc = 1
+		}
+		if r.Chance(45) { // the early data fills a small connection-level window
+			sc.cwKiB, sc.one, sc.maxKiB = []int{16, 24, 48}[r.Intn(3)], r.Intn(2), 200
+		}
+	case h >= 1:
+		sc.hs = 1 + h%2
 	}
 	return sc.String()
 }
@@ -813,9 +1424,173 @@ func (rn *runner) Exec(op string) string {
 	if !ok {
 		return "bad-op"
 	}
-	return runScenario(rn.t, sc)
+	if os.Getenv("E2E_DRYRUN") != "" { // list the scenarios of a run without executing them
+		return "dry"
+	}
+	if os.Getenv("E2E_INPROC") != "" {
+		return runScenario(rn.t, sc)
+	}
+	return theWorker.exec(op)
+}
+
+// ---------------------------------------------------------------- worker process
+//
+// A panic in a connection's run loop (or any other goroutine of the code under test) cannot be recovered by the
+// driver: it ends the process. So that such a crash is an OBSERVATION with a replay (result `crash=<panic>@<function>`,
+// monitor e2e_no_crash) instead of a harness failure, the scenarios run in a worker: the same test binary started
+// with E2E_WORKER=1, which reads op lines from stdin and answers `R <result>`. When the worker dies, the scenario it
+// was running gets the crash result and a new worker is started for the next one.
+
+type worker struct {
+	cmd    *exec.Cmd
+	in     io.WriteCloser
+	out    *bufio.Reader
+	stderr *tailBuffer
+}
+
+var theWorker worker
+
+// tailBuffer keeps the first 64 KiB written to it (the panic message and the first stacks).
+type tailBuffer struct {
+	mu sync.Mutex
+	b  []byte
+}
+
+func (t *tailBuffer) Write(p []byte) (int, error) {
+	t.mu.Lock()
+	if room := 64<<10 - len(t.b); room > 0 {
+		t.b = append(t.b, p[:min(len(p), room)]...)
+	}
+	t.mu.Unlock()
+	return len(p), nil
+}
+
+func (w *worker) start() error {
+	cmd := exec.Command(os.Args[0], "-test.run", "^TestDriver$", "-test.count=1", "-test.timeout", "0")
+	cmd.Env = append(os.Environ(), "E2E_WORKER=1")
+	in, err := cmd.StdinPipe()
+	if err != nil {
+		return err
+	}
+	out, err := cmd.StdoutPipe()
+	if err != nil {
+		return err
+	}
+	w.stderr = &tailBuffer{}
+	cmd.Stderr = w.stderr
+	if err := cmd.Start(); err != nil {
+		return err
+	}
+	w.cmd, w.in, w.out = cmd, in, bufio.NewReaderSize(out, 1<<20)
+	return nil
+}
+
+func (w *worker) stop() {
+	if w.cmd != nil {
+		w.in.Close()
+		w.cmd.Wait()
+		w.cmd = nil
+	}
+}
+
+func (w *worker) exec(op string) string {
+	if w.cmd == nil {
+		if err := w.start(); err != nil {
+			return "setup-error worker"
+		}
+	}
+	type reply struct {
+		line string
+		err  error
+	}
+	ch := make(chan reply, 1)
+	go func() {
+		fmt.Fprintln(w.in, op)
+		for {
+			l, err := w.out.ReadString('\n')
+			if err != nil || strings.HasPrefix(l, "R ") {
+				ch <- reply{strings.TrimSuffix(strings.TrimPrefix(l, "R "), "\n"), err}
+				return
+			}
+		}
+	}()
+	var r reply
+	select {
+	case r = <-ch:
+	case <-time.After(10 * time.Minute): // wall clock: a scenario takes well under a second
+		w.cmd.Process.Kill()
+		r = <-ch
+		w.cmd.Wait()
+		w.cmd = nil
+		return "crash=timeout@-"
+	}
+	if r.err == nil {
+		return r.line
+	}
+	w.cmd.Wait()
+	w.cmd = nil
+	w.stderr.mu.Lock()
+	defer w.stderr.mu.Unlock()
+	return "crash=" + crashSummary(string(w.stderr.b))
+}
+
+// crashSummary: `<panic or fatal error line>@<innermost function of the module that is not harness code>`.
+func crashSummary(stderr string) string {
+	clean := func(s string) string {
+		s = strings.Map(func(r rune) rune {
+			if r == ' ' || r == '\t' || r == ';' || r == ',' || r == '=' {
+				return '_'
+			}
+			return r
+		}, strings.TrimSpace(s))
+		if len(s) > 120 {
+			s = s[:120]
+		}
+		return s
+	}
+	msg, fn := "unknown", "-"
+	lines := strings.Split(stderr, "\n")
+	at := -1
+	for i, l := range lines {
+		if strings.HasPrefix(l, "panic: ") || strings.HasPrefix(l, "fatal error: ") {
+			msg, at = clean(l), i
+			break
+		}
+	}
+	if at >= 0 {
+		for _, l := range lines[at+1:] {
+			if strings.HasPrefix(l, "github.com/refraction-networking/uquic") && !strings.Contains(l, "/verifharness/") {
+				f := strings.TrimPrefix(l, "github.com/refraction-networking/")
+				if i := strings.LastIndex(f, "("); i > 0 {
+					f = f[:i]
+				}
+				fn = clean(f)
+				break
+			}
+		}
+	}
+	return msg + "@" + fn
+}
+
+func workerMain(t *testing.T) {
+	in := bufio.NewScanner(os.Stdin)
+	in.Buffer(make([]byte, 1<<20), 1<<24)
+	out := bufio.NewWriter(os.Stdout)
+	for in.Scan() {
+		res := "bad-op"
+		if sc, ok := parseScenario(in.Text()); ok {
+			res = runScenario(t, sc)
+		}
+		fmt.Fprintf(out, "R %s\n", res)
+		out.Flush()
+	}
 }
 
 func TestDriver(t *testing.T) {
+	if os.Getenv("E2E_WORKER") != "" {
+		workerMain(t)
+		return
+	}
+	defer theWorker.stop()
 	vh.Main(t, "e2estream", func(r *vh.Rand) vh.Runner { return &runner{t: t} })
 }
